@@ -34,6 +34,27 @@ def us_of(d: datetime) -> int:
     return (delta.days * 86400 + delta.seconds) * 1000000 + delta.microseconds
 
 
+def tz_of(name: str | None):  # type: ignore[no-untyped-def]
+    """`None`/"UTC" -> timezone.utc; "+05:30"/"-03:00" -> fixed offset; otherwise a `ZoneInfo` key."""
+    if name is None or name == "UTC":
+        return timezone.utc
+    if name[0] in "+-":
+        hh, mm = name[1:].split(":")
+        off = timedelta(hours=int(hh), minutes=int(mm))
+        return timezone(off if name[0] == "+" else -off)
+    from zoneinfo import ZoneInfo
+
+    return ZoneInfo(name)
+
+
+VALUE_KINDS = {"ok": None, "nan": float("nan"), "inf": float("inf"), "-inf": float("-inf")}
+
+
+def value_flags(v: str) -> dict:
+    """How a fed value is described to the model / the oracle: only None and NaN are invalid, ±inf is a value."""
+    return {"none": v == "none", "nan": v == "nan", "inf": v in ("inf", "-inf")}
+
+
 def td_us(td: timedelta | None) -> int | None:
     if td is None:
         return None
@@ -72,8 +93,8 @@ class _Src:
         item = await self.q.get()
         if item is None:
             raise StopAsyncIteration
-        j, sample, valid = item
-        self.log.append(("recv", self.sid, j, us_of(sample.timestamp), valid))
+        j, sample, kind = item
+        self.log.append(("recv", self.sid, j, us_of(sample.timestamp), kind))
         return sample
 
 
@@ -97,7 +118,7 @@ async def _run_loop_case(case: dict, loop: Any) -> dict:
     from frequenz.quantities import Quantity
 
     from frequenz.sdk.timeseries import Sample
-    from frequenz.sdk.timeseries._resampling import Resampler, ResamplerConfig
+    from frequenz.sdk.timeseries._resampling import Resampler, ResamplerConfig, ResamplingError
 
     clock = loop._selector.clock  # pylint: disable=protected-access
 
@@ -112,9 +133,13 @@ async def _run_loop_case(case: dict, loop: Any) -> dict:
     srcs: dict[int, _Src] = {}
     counters: dict[int, int] = {}
     errors: list[str] = []
+    ident: dict[int, tuple[int, int]] = {}  # id(Sample object fed) -> (series, index); the objects are kept alive
+    fed: list = []
+    failing_sinks: set[int] = set()
+    restarts: list = []
 
     def resampling_function(samples, config, props):  # type: ignore[no-untyped-def]
-        vals = [(us_of(s.timestamp), None if s.value is None else s.value.base_value) for s in samples]
+        vals = [(us_of(s.timestamp), ident.get(id(s))) for s in samples]
         calls.append(vals)
         log.append(("call", len(calls) - 1))
         return float(len(calls) - 1)
@@ -132,7 +157,7 @@ async def _run_loop_case(case: dict, loop: Any) -> dict:
             errors.append(f"clock {now_us()} != loop0 {loop0}")
         kwargs: dict = {}
         if "align" in case:
-            kwargs["align_to"] = None if case["align"] is None else dt(case["align"])
+            kwargs["align_to"] = None if case["align"] is None else dt(case["align"]).astimezone(tz_of(case.get("align_tz")))
         if "max_age" in case:
             kwargs["max_data_age_in_periods"] = max_age_float(case)
         if "init_len" in case:
@@ -145,10 +170,29 @@ async def _run_loop_case(case: dict, loop: Any) -> dict:
         resampler = Resampler(config)
         first_due = resampler._timer._next_tick_time  # pylint: disable=protected-access
         w0 = us_of(resampler._window_end)  # pylint: disable=protected-access
-        task = asyncio.get_running_loop().create_task(resampler.resample())
+
+        async def supervise() -> None:
+            """Run `resample()` the way `ComponentMetricsResamplingActor._run` does: after a `ResamplingError`
+            remove the sources named in it and call `resample()` again; anything else ends the task."""
+            while True:
+                try:
+                    await resampler.resample()
+                except ResamplingError as err:
+                    gone = []
+                    for source in err.exceptions:
+                        resampler.remove_timeseries(source)
+                        gone.append(getattr(source, "sid", None))
+                    restarts.append((now_us(), gone))
+                    log.append(("restart", now_us(), gone))
+                else:
+                    return
+
+        task = asyncio.get_running_loop().create_task(supervise())
 
         def make_sink(sid: int, src: _Src):  # type: ignore[no-untyped-def]
             async def sink(sample: Sample) -> None:  # type: ignore[type-arg]
+                if sid in failing_sinks:
+                    raise RuntimeError(f"sink of series {sid} failed")
                 try:
                     props = resampler.get_source_properties(src)
                     ip, rec = td_us(props.sampling_period), props.received_samples
@@ -181,12 +225,21 @@ async def _run_loop_case(case: dict, loop: Any) -> dict:
             elif op == "remove":
                 sid = a["s"]
                 ok = sid in srcs and resampler.remove_timeseries(srcs[sid])
+                if ok:
+                    del srcs[sid]  # a later `add` of this series id comes with a new source object
                 log.append(("remove", sid, now_us(), ok))
             elif op == "lat":
                 lat[a["s"]] = a["d"]
             elif op == "hog":  # the loop is blocked for d µs (everything due meanwhile runs late)
                 clock.advance(a["d"] / 1e6)
                 traveller.move_to(dt(wall0 + now_us()))
+            elif op == "fail":  # from now on the series raises at every tick: its source stops / its sink raises
+                sid = a["s"]
+                if a.get("how", "sink") == "source" and sid in srcs:
+                    srcs[sid].q.put_nowait(None)
+                else:
+                    failing_sinks.add(sid)
+                log.append(("fail", sid, now_us()))
             elif op == "send":
                 sid = a["s"]
                 j = counters.get(sid, 0)
@@ -194,12 +247,15 @@ async def _run_loop_case(case: dict, loop: Any) -> dict:
                 v = a.get("v", "ok")
                 if v == "ok":
                     q: Any = Quantity(float(sid * SERIES_STRIDE + j))
-                elif v == "nan":
-                    q = Quantity(float("nan"))
-                else:
+                elif v == "none":
                     q = None
+                else:
+                    q = Quantity(VALUE_KINDS[v])
                 if sid in srcs:
-                    srcs[sid].q.put_nowait((j, Sample(dt(a["ts"]), q), v == "ok"))
+                    sample = Sample(dt(a["ts"]), q)
+                    ident[id(sample)] = (sid, j)
+                    fed.append(sample)
+                    srcs[sid].q.put_nowait((j, sample, v))
             else:
                 raise ValueError(op)
             last_t = t
@@ -214,6 +270,7 @@ async def _run_loop_case(case: dict, loop: Any) -> dict:
             t.cancel()
         await asyncio.gather(*others, return_exceptions=True)
     return {"log": log, "calls": calls, "dead": dead, "w0": w0, "first_due": first_due, "errors": errors,
+            "restarts": len(restarts),
             "end_clock": now_us(), "last_action": last_t}
 
 
@@ -232,7 +289,8 @@ def loop_ticks(res: dict) -> list:
 
 
 def c07_impl_out(res: dict) -> dict:
-    return {"w0": res["w0"], "first_due": res["first_due"], "ticks": loop_ticks(res), "dead": res["dead"] is not None}
+    return {"w0": res["w0"], "first_due": res["first_due"], "ticks": loop_ticks(res), "dead": res["dead"] is not None,
+            "restarts": res["restarts"]}
 
 
 # ----------------------------------------------------------------------------------------------- C07 oracle
@@ -259,6 +317,9 @@ def c07_oracle(case: dict, res: dict) -> list[tuple[str, Any]]:
                 cur[e[1]]["removed"] = e[2]
                 # a tick in flight may still deliver to the removed series; keep the record for that
                 cur[e[1]] = {**cur[e[1]], "ghost": True}
+        elif e[0] == "fail":
+            if e[1] in cur and cur[e[1]]["removed"] is None:
+                cur[e[1]]["removed"] = e[2]  # a failing series is dropped by the recovery; nothing is owed to it
         elif e[0] == "emit":
             _, sid, ts, _v, at, _ip, _ml = e
             if (ts - origin) % p != 0:
@@ -315,18 +376,79 @@ def c07_oracle(case: dict, res: dict) -> list[tuple[str, Any]]:
 
 # ----------------------------------------------------------------------------------------------- C07 generator
 PERIODS = [1000, 2000, 10_000, 100_000, 250_000, 1_000_000, 1_500_000, 2_000_000, 15_000_000, 60_000_000,
-           900_000_000, 3_600_000_000, 10_800_000_000]
+           900_000_000, 3_600_000_000, 10_800_000_000,
+           # periods that do not divide one hour (a grid computed on a DST wall clock drifts off)
+           700_000, 7_000_000, 13_000_000, 420_000_000, 2_700_000_000 + 60_000_000]
 UNIT = 10  # period, latencies are multiples of UNIT µs; actions are placed off the residue class of the ticks
 
 
-def gen_creation(rng: random.Random, p: int) -> tuple[int | None, int, str, str]:
-    """(align, wall clock at creation, align kind, phase kind)."""
-    kind = rng.choice(["epoch", "epoch", "past", "future", "none", "far-future"])
-    phase_kind = rng.choice(["aligned", "+1us", "-1us", "half", "random", "random"])
-    phase = {"aligned": 0, "+1us": 1, "-1us": p - 1, "half": p // 2, "random": rng.randrange(p)}[phase_kind]
+DST_ZONES = ["Europe/Berlin", "America/New_York", "Australia/Lord_Howe", "America/Santiago"]
+FIXED_ZONES = ["+05:30", "-03:00", "+14:00", "UTC", "Asia/Tokyo"]
+_switch_cache: dict[str, list[int]] = {}
+
+
+def dst_switches(zone: str) -> list[int]:
+    """The instants (µs, UTC) of 2024 at which the UTC offset of `zone` changes."""
+    if zone not in _switch_cache:
+        tz = tz_of(zone)
+        out = []
+        t = datetime(2024, 1, 1, tzinfo=timezone.utc)
+        end = datetime(2025, 1, 1, tzinfo=timezone.utc)
+        step = timedelta(hours=6)
+        off = t.astimezone(tz).utcoffset()
+        while t < end:
+            n = t + step
+            if n.astimezone(tz).utcoffset() != off:
+                lo, hi = t, n  # bisect to the minute
+                while hi - lo > timedelta(minutes=1):
+                    mid = lo + (hi - lo) / 2
+                    mid = mid.replace(second=0, microsecond=0)
+                    if mid <= lo:
+                        break
+                    if mid.astimezone(tz).utcoffset() == off:
+                        lo = mid
+                    else:
+                        hi = mid
+                out.append(us_of(hi))
+                off = n.astimezone(tz).utcoffset()
+            t = n
+        _switch_cache[zone] = out
+    return _switch_cache[zone]
+
+
+def gen_creation(rng: random.Random, p: int) -> tuple[int | None, int, str, str, str | None]:
+    """(align instant, wall clock at creation, align kind, phase kind, time zone `align_to` is expressed in)."""
+    kind = rng.choice(["epoch", "epoch", "past", "future", "none", "far-future", "tz", "tz"])
+    phase_kind = rng.choice(["aligned", "+1us", "-1us", "half", "random", "random", "lt-1ms"])
+    phase = {"aligned": 0, "+1us": 1, "-1us": p - 1, "half": p // 2, "random": rng.randrange(p),
+             "lt-1ms": rng.randrange(1, min(p, 1000))}[phase_kind]
     base = 1_700_000_000_000_000 + rng.randrange(10**9) if rng.random() < 0.8 else rng.randrange(10**7)
     if kind == "none":
-        return None, base + rng.randrange(p), kind, "n/a"
+        return None, base + rng.randrange(p), kind, "n/a", None
+    if kind == "tz":
+        # `align_to` given as a local time; the grid is a grid of INSTANTS whatever the zone does
+        if rng.random() < 0.7:
+            zone = rng.choice(DST_ZONES)
+            sw = dst_switches(zone)
+            if rng.random() < 0.5 and sw:
+                # the run crosses a DST switch: created a few periods before it
+                s_at = rng.choice(sw)
+                align = s_at - rng.randrange(1, 40) * 86_400_000_000 - rng.randrange(3_600_000_000)
+                now = s_at - rng.randint(1, 4) * p - rng.randrange(p)
+                now = align + ((now - align) // p) * p + phase
+                return align, now, "tz-dst-crossing", phase_kind, zone
+            # `align_to` and the creation lie in different DST phases
+            jan = us_of(datetime(2024, 1, 15, tzinfo=timezone.utc)) + rng.randrange(86_400_000_000)
+            jul = us_of(datetime(2024, 7, 10, tzinfo=timezone.utc)) + rng.randrange(86_400_000_000)
+            align, near = (jan, jul) if rng.random() < 0.5 else (jul, jan)
+            if rng.random() < 0.5:
+                align = (align // 1_000_000) * 1_000_000
+            now = align + ((near - align) // p) * p + phase
+            return align, now, "tz-other-dst-phase", phase_kind, zone
+        zone = rng.choice(FIXED_ZONES)
+        align = us_of(datetime(2024, 3, 1, tzinfo=timezone.utc)) + rng.randrange(10**9)
+        now = align + rng.randrange(10**5) * p + phase
+        return align, now, "tz-fixed-offset", phase_kind, zone
     if kind == "epoch":
         align = 0
         now = (base // p) * p + phase
@@ -341,13 +463,13 @@ def gen_creation(rng: random.Random, p: int) -> tuple[int | None, int, str, str]
         k = rng.randint(10**3, 10**6)
         now = base
         align = now - phase + k * p
-    return align, now, kind, phase_kind
+    return align, now, kind, phase_kind, None
 
 
 def gen_loop_case(rng: random.Random, with_samples: bool = False, allow_remove: bool = True,
                   max_ticks: int = 20) -> tuple[dict, list[str]]:
     p = rng.choice(PERIODS)
-    align, now, akind, pkind = gen_creation(rng, p)
+    align, now, akind, pkind, zone = gen_creation(rng, p)
     loop0 = rng.choice([0, 0, rng.randrange(1, 10**7)])
     wall0 = now - loop0
     tags = [f"align-{akind}", f"phase-{pkind}", f"period-{'sub-s' if p < 10**6 else ('s' if p < 6 * 10**7 else 'min-h')}"]
@@ -384,11 +506,13 @@ def gen_loop_case(rng: random.Random, with_samples: bool = False, allow_remove: 
         times.append(off_tick(first_due + k * p + rng.choice([-UNIT, UNIT, 2 * UNIT])))
     times = sorted(set(t for t in times if loop0 < t < horizon))
     busy_until = loop0
+    failed: set[int] = set()
+    n_failed = 0
     for t in times:
         if t <= busy_until:
             continue
         r = rng.random()
-        absent = [s for s in range(n_series) if s not in present]
+        absent = [s for s in range(n_series) if s not in present and s not in failed]
         if r < 0.3 and absent:
             s = rng.choice(absent)
             actions.append({"t": t, "op": "add", "s": s, "d": rng.choice(lat_choices[:6])})
@@ -399,7 +523,16 @@ def gen_loop_case(rng: random.Random, with_samples: bool = False, allow_remove: 
             actions.append({"t": t, "op": "remove", "s": s})
             present.discard(s)
             tags.append("remove-mid-run")
-        elif r < 0.44 and present:
+        elif r < 0.47 and allow_remove and len(present) > 1 and n_failed < 2:
+            # a source stops / a sink starts raising: the next tick ends with a ResamplingError and the recovery of
+            # the resampling actor (remove the failed series, call resample() again) runs
+            s = rng.choice(sorted(present))
+            actions.append({"t": t, "op": "fail", "s": s, "how": rng.choice(["sink", "source"])})
+            present.discard(s)
+            failed.add(s)
+            n_failed += 1
+            tags.append("series-fails+restart")
+        elif r < 0.50 and present:
             s = rng.choice(sorted(present))  # already registered: add_timeseries refuses
             actions.append({"t": t, "op": "add", "s": s, "d": rng.choice(lat_choices[:6])})
             tags.append("add-duplicate")
@@ -424,6 +557,8 @@ def gen_loop_case(rng: random.Random, with_samples: bool = False, allow_remove: 
     end = off_tick(max(first_due + n_ticks * p, t_calm + 4 * p) + p // 2)
     case = {"kind": "loop", "period": p, "align": align, "wall0": wall0, "loop0": loop0, "now": now,
             "actions": actions, "end": end}
+    if zone is not None:
+        case["align_tz"] = zone
     if with_samples:
         add_samples(rng, case, first_due, tags)
     return case, tags
@@ -432,14 +567,15 @@ def gen_loop_case(rng: random.Random, with_samples: bool = False, allow_remove: 
 def c07_nontrivial(case: dict) -> bool:
     ops = [a["op"] for a in case["actions"]]
     late = any(a["op"] == "hog" or (a["op"] in ("lat", "add") and a.get("d", 0) > 0) for a in case["actions"])
-    return late or "remove" in ops or any(a["op"] == "add" and a["t"] != case["loop0"] for a in case["actions"])
+    return (late or "remove" in ops or "fail" in ops
+            or any(a["op"] == "add" and a["t"] != case["loop0"] for a in case["actions"]))
 
 
 def lean_loop_case(case: dict) -> dict:
     """What the Lean driver gets: the case without the samples' payload."""
     return {"kind": "loop", "period": case["period"], "align": case["align"], "now": case["wall0"] + case["loop0"],
             "loop0": case["loop0"], "end": case["end"],
-            "actions": [a for a in case["actions"] if a["op"] != "send"]}
+            "actions": [{k: v for k, v in a.items() if k != "how"} for a in case["actions"] if a["op"] != "send"]}
 
 
 # ----------------------------------------------------------------------------------------------- samples (C08)
@@ -504,9 +640,11 @@ def add_samples(rng: random.Random, case: dict, first_due: int, tags: list[str])
                     tags.append("future-stamp")
                 if last_ts is not None and ts < last_ts:
                     ts = last_ts
-                v = "ok" if rng.random() < 0.9 else rng.choice(["nan", "none"])
-                if v != "ok":
+                v = "ok" if rng.random() < 0.86 else rng.choice(["nan", "none", "inf", "-inf"])
+                if v in ("nan", "none"):
                     tags.append("invalid-sample")
+                elif v != "ok":
+                    tags.append("infinite-sample")
                 sends.append({"t": off_tick(t), "op": "send", "s": s, "ts": ts, "v": v})
                 last_ts = ts
                 n += 1
@@ -520,8 +658,8 @@ def helper_case_of_trace(case: dict, res: dict, sid: int) -> tuple[dict, dict] |
     ticks: list[dict] = []
     for e in res["log"]:
         if e[0] == "recv" and e[1] == sid:
-            _, _, j, ts, valid = e
-            events.append({"op": "recv", "ts": ts, "id": j, "none": not valid, "nan": False})
+            _, _, j, ts, kind = e
+            events.append({"op": "recv", "ts": ts, "id": j, "v": kind, **value_flags(kind)})
         elif e[0] == "emit" and e[1] == sid:
             _, _, T, v, _at, ip, maxlen = e
             if maxlen is None:
@@ -529,8 +667,8 @@ def helper_case_of_trace(case: dict, res: dict, sid: int) -> tuple[dict, dict] |
             if v is None:
                 rel = []
             else:
-                rel = [None if val is None or val != val else int(val) - sid * SERIES_STRIDE
-                       for (_ts, val) in res["calls"][int(v)]]  # None: a None/NaN sample was handed over
+                rel = [who[1] if who is not None and who[0] == sid else None
+                       for (_ts, who) in res["calls"][int(v)]]  # None: not a sample fed to this series
             events.append({"op": "tick", "T": T, "est": ip})
             ticks.append({"rel": rel, "none": v is None, "err": False, "maxlen": maxlen, "ip": ip})
     if not ticks:
@@ -549,9 +687,11 @@ def run_helper_case(case: dict) -> dict:
     from frequenz.sdk.timeseries._resampling import ResamplerConfig, _ResamplingHelper
 
     calls: list = []
+    ident: dict[int, int] = {}  # id(Sample object) -> id of the event; the objects are kept alive in `fed`
+    fed: list = []
 
     def resampling_function(samples, config, props):  # type: ignore[no-untyped-def]
-        calls.append([None if s.value is None else s.value.base_value for s in samples])
+        calls.append([ident.get(id(s)) for s in samples])
         return float(len(calls) - 1)
 
     kwargs: dict = {}
@@ -569,9 +709,14 @@ def run_helper_case(case: dict) -> dict:
                 if e["op"] == "recv":
                     continue  # `_StreamingHelper._receive_samples` is not part of this path; see run_loop_case
                 q: Any = None if e.get("none") else Quantity(float("nan"))
+            elif e.get("inf"):
+                q = Quantity(VALUE_KINDS[e.get("v", "inf")])
             else:
                 q = Quantity(float(e["id"]))
-            helper.add_sample(Sample(dt(e["ts"]), q))
+            sample = Sample(dt(e["ts"]), q)
+            ident[id(sample)] = e["id"]
+            fed.append(sample)
+            helper.add_sample(sample)
         else:
             try:
                 out = helper.resample(dt(e["T"]))
@@ -585,12 +730,12 @@ def run_helper_case(case: dict) -> dict:
             if out.value is None:
                 rel: list = []
             else:
-                rel = [None if v is None or v != v else int(v) for v in calls[int(out.value.base_value)]]
+                rel = calls[int(out.value.base_value)]
             ip = td_us(helper.source_properties.sampling_period)
             e["est"] = ip
             ticks.append({"rel": rel, "none": out.value is None, "err": False,
                           "maxlen": helper._buffer.maxlen, "ip": ip})  # pylint: disable=protected-access
-    buf = [None if s.value is None or s.value.isnan() else int(s.value.base_value) for s in helper._buffer]  # pylint: disable=protected-access
+    buf = [ident.get(id(s)) for s in helper._buffer]  # pylint: disable=protected-access
     return {"ticks": ticks, "buf": buf}
 
 
@@ -621,8 +766,9 @@ def float_sensitive(case: dict, impl: dict) -> bool:
 def c08_oracle(case: dict, impl: dict) -> list[tuple[str, Any]]:
     """The statement of C08 on what the recording resampling function / the sink saw, recomputed from the fed history.
 
-    Uses the buffer length and input period read back from the implementation at each tick (the property speaks of
-    "the configured buffer" and "the input period"); everything else is recomputed from the events.
+    Uses the input period read back from the implementation at each tick (the property speaks of "the input
+    period"); the buffer length the deque must have, and everything else, is recomputed from the configuration and
+    the events.
     """
     p, ma = case["period"], max_age_fraction(case)
     fails: list[tuple[str, Any]] = []
@@ -630,6 +776,7 @@ def c08_oracle(case: dict, impl: dict) -> list[tuple[str, Any]]:
     held = 0  # how many of the most recent valid samples the deque still holds
     maxlen = case["init_len"]
     stamps = {}
+    ip_prev: int | None = None
     ticks = iter(impl["ticks"])
     for e in case["events"]:
         if e["op"] in ("recv", "add"):
@@ -644,8 +791,27 @@ def c08_oracle(case: dict, impl: dict) -> list[tuple[str, Any]]:
             fails.append(("no-value-emitted", {"T": e["T"], "input_period": t["ip"], "note": "the helper raised"}))
             continue
         T = e["T"]
-        if t["maxlen"] != maxlen:  # the buffer was rebuilt with the new length before the window is evaluated
-            maxlen = t["maxlen"]
+        # The configured buffer: `initial_buffer_len` until the input period is known; from the tick that estimates it
+        # on, enough for `max_age` periods of data at the input rate — ceil(period / input period · max_age) (when
+        # up-sampling: ceil(input period [s] · max_age)), at least 1, at most `max_buffer_len`.  The deque is rebuilt
+        # (keeping the most recent samples) before the window is evaluated.
+        want = maxlen
+        if ip_prev is None and t["ip"] is not None and t["ip"] > 0:
+            ip = t["ip"]
+            x = Fraction(ip, 10**6) * ma if ip > p else Fraction(p, ip) * ma
+            ma_f = max_age_float(case)
+            ip_s, p_s = timedelta(microseconds=ip).total_seconds(), timedelta(microseconds=p).total_seconds()
+            f = ip_s * ma_f if ip > p else p_s / ip_s * ma_f
+            if math.ceil(f) == math.ceil(x):
+                want = min(case.get("max_len", 1024), max(1, math.ceil(x)))
+            else:
+                want = t["maxlen"]  # the float result lies on the other side of an integer: not judged
+        ip_prev = t["ip"]
+        if t["maxlen"] != want:
+            fails.append(("buffer-length", {"T": T, "configured_for": want, "actual_maxlen": t["maxlen"],
+                                            "input_period": t["ip"], "max_buffer_len": case.get("max_len", 1024)}))
+        if want != maxlen:
+            maxlen = want
             held = min(held, maxlen)
         W = window_us(p, t["ip"], ma)
         recent = valid[len(valid) - held:] if held else []
@@ -735,6 +901,10 @@ def gen_helper_case(rng: random.Random, ordered: bool = True, exotic: bool = Fal
             elif r < 0.08:
                 ev["none"] = True
                 tags.append("invalid-sample")
+            elif r < 0.12:
+                ev["inf"] = True
+                ev["v"] = rng.choice(["inf", "-inf"])
+                tags.append("infinite-sample")
             events.append(ev)
             nid += 1
             budget -= 1
@@ -748,3 +918,34 @@ def gen_helper_case(rng: random.Random, ordered: bool = True, exotic: bool = Fal
     case = {"kind": "helper", "period": p, "max_age": max_age, "init_len": init_len, "max_len": max_len, "events": events}
     return case, tags
 
+
+
+def gen_fast_source_case(rng: random.Random) -> tuple[dict, list[str]]:
+    """A source much faster than the resampling period: once its period is estimated the deque must grow to
+    ceil(period / input period · max_age) — targets just around the warn (128) and the maximum (1024) length."""
+    p = rng.choice([100_000, 1_000_000, 1_000_000, 2_000_000])
+    max_age = rng.choice(["1", "1", "3/2", "2", "3"])
+    ma = Fraction(max_age)
+    target = rng.choice([100, 127, 128, 129, 130, 160, 200, 256, 300, 500, 1000, 1023, 1024, 1025, 1400])
+    max_len = 1024 if rng.random() < 0.75 else rng.choice([200, 300, 2000])
+    init_len = rng.choice([4, 8, 16, 16])
+    ip = max(1, int(Fraction(p) * ma / target))
+    tags = ["fast-source", "down-sampling",
+            "target-len-" + ("<=128" if target <= 128 else "129..1024" if target <= min(1024, max_len) else ">max")]
+    T0 = rng.choice([0, 1_700_000_000_000_000]) + 5 * p
+    events: list[dict] = []
+    nid = 0
+    t = T0 - p + rng.randrange(1, max(2, ip))
+    n_ticks = 2 + int(ma) + rng.randint(0, 1)
+    for k in range(n_ticks):
+        T = T0 + k * p
+        while t <= T:
+            ts = t
+            if rng.random() < 0.01:
+                ts = T  # stamped exactly at the tick
+            events.append({"op": "recv", "ts": min(ts, T) if ts > T else ts, "id": nid, "none": False, "nan": False})
+            nid += 1
+            t += ip
+        events.append({"op": "tick", "T": T, "est": None})
+    case = {"kind": "helper", "period": p, "max_age": max_age, "init_len": init_len, "max_len": max_len, "events": events}
+    return case, tags
